@@ -10,8 +10,8 @@ EXPLANATION = (
     "both under the state lock, or wait_for_submission), set_waker leaves the slot holding a waker equivalent to the "
     "argument on all arms, wait_for_submission pushes its parameter under the blocked_futures mutex; (R2) LIFE-6: "
     "submission, waker and Running are published under one lock region; (R3) Shared::update takes the waker "
-    "unconditionally on the (done || IS_MULTISHOT) edge and returns it as Wake, which process wakes; (R4) "
-    "Shared::enter calls wake_blocked_futures on the Ok edge; (R5) wake_blocked_futures conserves wakers (every one "
+    "unconditionally on the (done || IS_MULTISHOT) edge and returns it as Wake, which process wakes; (R4b) "
+    "every successful return of Completions::poll (Ring::poll) is preceded by wake_blocked_futures — directly, or through Shared::enter when all of its Ok returns call it; (R5) wake_blocked_futures conserves wakers (every one "
     "taken is woken or re-queued; loops exit only on exhaustion; no Vec<Waker> dropped/cleared); (R6) "
     "register-then-recheck: on the QueueFull path queue space is re-checked after the waker was registered. "
     "Liveness over all interleavings is not decided (these are necessary conditions)."
@@ -141,8 +141,10 @@ def r3_handover(r, facts):
         r.require(hit is None, 'Shared::update/no-take:%s' % ('multi' if ms else 'single'), 'on %s a path returns without taking the waker (the task is not woken)' % what, f.where(hit[0]) if hit else '')
         # Some(waker) -> StatusUpdate::Wake(waker)
         for loc, t in takes:
-            for si in f.enum_switches('std::option::Option'):
-                if si['place']['l'] == t['dest']['l'] and not si['place']['p']:
+            matched = [si for si in f.enum_switches('std::option::Option') if si['place']['l'] == t['dest']['l'] and not si['place']['p']]
+            r.require(bool(matched), 'Shared::update/take-unmatched', 'how the result of self.waker.take() is used was not recognised (unrecognised form)', f.where(loc))
+            for si in matched:
+                if True:
                     se = f.variant_edge(si, 'Some')
                     wakes = [l for l, s in f.assigns() if s['rv']['k'] == 'agg' and s['rv'].get('adt') == 'io_uring::op::StatusUpdate' and s['rv'].get('variant') == 'Wake' and s['lhs']['l'] == 0]
                     hit = f.forward_paths_hit([Loc(se[1], 0)], rets, blockers=wakes)
@@ -242,8 +244,10 @@ def r5_conservation(r, facts):
     wakes = [loc for loc, t in f.calls_to('std::task::Waker::wake')]
     r.require(len(nexts) >= 2 and len(wakes) >= 2, 'wake_blocked_futures/loops', 'wake loops not found (next=%d wake=%d)' % (len(nexts), len(wakes)), f.where())
     for loc, t in nexts:
-        for si in f.enum_switches('std::option::Option'):
-            if si['place']['l'] == t['dest']['l'] and not si['place']['p']:
+        matched = [si for si in f.enum_switches('std::option::Option') if si['place']['l'] == t['dest']['l'] and not si['place']['p']]
+        r.require(bool(matched), 'wake_blocked_futures/loop-unmatched', 'loop over wakers not recognised (unrecognised form)', f.where(loc))
+        for si in matched:
+            if True:
                 se = f.variant_edge(si, 'Some')
                 r.inst('loop', f.where(loc))
                 hit = f.forward_paths_hit([Loc(se[1], 0)], rets + [loc], blockers=wakes)
@@ -309,7 +313,6 @@ def check(ctx):
     ctx.run('C03.R1', 'Pending => a waker was registered (store/set_waker under the lock, or wait_for_submission); set_waker/wait_for_submission bodies', r1_pending_registered)
     ctx.run('C03.R2', 'LIFE-6: submission, waker and Running published in one lock region', life.life6)
     ctx.run('C03.R3', 'hand-over: update takes the waker on the ready edge and returns Wake; process wakes it', r3_handover)
-    ctx.run('C03.R4', 'Shared::enter wakes futures blocked on queue space on the Ok edge', r4_enter_wakes)
     ctx.run('C03.R4b', 'every successful Ring::poll gives queue-space waiters a wake-up chance', r4b_poll_wakes)
     ctx.run('C03.R5', 'wake_blocked_futures conserves wakers (woken or re-queued; loops exit only on exhaustion)', r5_conservation)
     ctx.run('C03.R6', 'register-then-recheck on the QueueFull path', r6_recheck)
